@@ -49,40 +49,127 @@ func stageConds(b *ssa.BasicBlock) string {
 	return strings.Join(out, " && ")
 }
 
+// stageCondsDeep: the non-loop conditions under which a (possibly deep) call runs.
+func stageCondsDeep(dc fw.DeepCall) string {
+	var out []string
+	for _, s := range fw.DeepFacts(dc.Fr, dc.Call.Block()) {
+		t := strings.TrimPrefix(s, "!")
+		if strings.HasPrefix(t, "next(range(") || strings.HasPrefix(t, "((phi(-1|") || strings.Contains(t, "builtin.len(") || strings.Contains(t, "== nil:*gmsl/spec.RoomID") || strings.HasPrefix(t, "(phi(") {
+			continue
+		}
+		// early exits on missing inputs (nil tests) are not conditions of the algorithm
+		if strings.HasSuffix(t, " == nil)") {
+			continue
+		}
+		out = append(out, s)
+	}
+	return strings.Join(out, " && ")
+}
+
+// callChain: the call sites through which a deep call is reached, outermost first, then the call.
+func callChain(dc fw.DeepCall) []ssa.Instruction {
+	var rev []ssa.Instruction
+	rev = append(rev, dc.Call.(ssa.Instruction))
+	for f := dc.Fr; f != nil; f = f.Parent {
+		rev = append(rev, f.Site)
+	}
+	for i, j := 0, len(rev)-1; i < j; i, j = i+1, j-1 {
+		rev[i], rev[j] = rev[j], rev[i]
+	}
+	return rev
+}
+
+// canRunBefore: y can execute before x on some path (ordered at the first level at which the
+// two call chains differ).
+func canRunBefore(y, x fw.DeepCall) bool {
+	cy, cx := callChain(y), callChain(x)
+	k := 0
+	for k < len(cy) && k < len(cx) && cy[k] == cx[k] {
+		k++
+	}
+	if k >= len(cy) || k >= len(cx) {
+		return false
+	}
+	a, b := cy[k], cx[k]
+	if a.Block() == b.Block() {
+		ia, ib := -1, -1
+		for i, ins := range a.Block().Instrs {
+			if ins == a {
+				ia = i
+			}
+			if ins == b {
+				ib = i
+			}
+		}
+		if ia < ib {
+			return true
+		}
+		// later in the same block: only around a loop
+		return fw.ReachableFrom(a.Block(), nil)[a.Block()] && blockInLoop(a.Block())
+	}
+	return fw.ReachableFrom(a.Block(), nil)[b.Block()]
+}
+
+func blockInLoop(b *ssa.BasicBlock) bool {
+	for _, s := range b.Succs {
+		if fw.ReachableFrom(s, nil)[b] {
+			return true
+		}
+	}
+	return false
+}
+
 func checkStages(c *fw.Ctx, rule string, fn *ssa.Function, fname string, stages []stage) {
-	var prev ssa.CallInstruction
+	var prev *fw.DeepCall
 	var prevName string
+	// helpers of the driver are entered, the stage routines themselves are not
+	stageFns := map[string]bool{}
 	for _, st := range stages {
-		var found []ssa.CallInstruction
-		for _, call := range fw.CallsTo(fn, false, fw.NameIs(st.callee)) {
-			if st.arg == nil || st.arg(argSigs(call)) {
-				found = append(found, call)
+		stageFns[st.callee] = true
+	}
+	stop := func(f *ssa.Function) bool { return stopExported(f) || stageFns[fw.FuncName(f)] }
+	for _, st := range stages {
+		var found []fw.DeepCall
+		all := fw.DeepCalls(fn, fw.NameIs(st.callee), stop)
+		for _, dc := range all {
+			var sigs []string
+			if dc.Call.Common().IsInvoke() {
+				sigs = append(sigs, fw.SigIn(dc.Fr, dc.Call.Common().Value))
+			}
+			for _, a := range dc.Call.Common().Args {
+				sigs = append(sigs, fw.SigIn(dc.Fr, a))
+			}
+			if st.arg == nil || st.arg(sigs) {
+				found = append(found, dc)
 			}
 		}
 		construct := fname + ": stage " + st.name
+		if len(all) == 0 {
+			c.Fail(rule, construct, c.P.Pos(fn.Pos()), "the driver (and the unexported helpers it calls) never calls "+st.callee+": the stage is missing")
+			prev = nil
+			continue
+		}
 		if len(found) != 1 {
-			c.Fail(rule, construct, c.P.Pos(fn.Pos()), fmt.Sprintf("expected exactly one call site for this stage, found %d", len(found)))
+			c.Undecided(rule, construct, fmt.Sprintf("expected exactly one recognisable call site for this stage, found %d of %d calls of %s", len(found), len(all), st.callee))
 			prev = nil
 			continue
 		}
 		call := found[0]
-		got := stageConds(call.Block())
+		got := stageCondsDeep(call)
 		if got != st.conds {
-			c.Fail(rule, construct+" runs under the prescribed condition", c.P.Pos(call.Pos()), fmt.Sprintf("the stage runs when [%s]; the algorithm prescribes [%s]", got, st.conds))
+			if strings.Contains(got, "param:stateResAlgo") || got == "" {
+				c.Fail(rule, construct+" runs under the prescribed condition", c.P.Pos(call.Call.Pos()), fmt.Sprintf("the stage runs when [%s]; the algorithm prescribes [%s]", got, st.conds))
+			} else {
+				c.Undecided(rule, construct+" runs under the prescribed condition", fmt.Sprintf("the stage runs under conditions the rule does not know: [%s]", got))
+			}
 		} else {
-			c.Ok(rule, construct+" runs under the prescribed condition", c.P.Pos(call.Pos()), "["+got+"]")
+			c.Ok(rule, construct+" runs under the prescribed condition", c.P.Pos(call.Call.Pos()), "["+got+"]")
 		}
 		if prev != nil {
-			p := prev
-			_, bad := fw.MustPrecede(fn, func(i ssa.Instruction) bool { return i == ssa.Instruction(p.(ssa.Instruction)) }, func(i ssa.Instruction) bool { return i == ssa.Instruction(call.(ssa.Instruction)) })
-			ordered := len(bad) == 0
-			if st.conds != "" || stageCondsOfCall(prev) != "" {
-				// a conditional stage need not dominate; require that it cannot run after the next one
-				ordered = !reaches(call, prev)
-			}
-			c.Check(ordered, rule, fname+": "+prevName+" precedes "+st.name, c.P.Pos(call.Pos()), "", st.name+" can run before "+prevName)
+			c.Check(!canRunBefore(call, *prev), rule, fname+": "+prevName+" precedes "+st.name, c.P.Pos(call.Call.Pos()), "", st.name+" can run before "+prevName)
 		}
-		prev, prevName = call, st.name
+		cp := call
+		prev, prevName = &cp, st.name
 	}
 }
 
@@ -207,15 +294,20 @@ func checkV2Drivers(c *fw.Ctx) {
 			{"mainline ordering of other events", "(*gmsl.stateResolverV2).mainlineOrdering", nil, ""},
 			{"iterative auth of other events", auth, func(s []string) bool { return anyContains(s, "mainlineOrdering") }, ""},
 		})
-		n := len(fw.CallsTo(fn, false, fw.NameIs(apply)))
-		ap := fw.CallsTo(fn, false, fw.NameIs(apply))
-		okPos := n == 2
-		if okPos {
-			r := fw.CallsTo(fn, false, fw.NameIs(rto))
-			au := fw.CallsTo(fn, false, fw.NameIs(auth))
-			okPos = len(r) == 1 && len(au) == 2 && reaches(ap[0], r[0]) && !reaches(r[0], ap[0]) && reaches(au[1], ap[1]) && !reaches(ap[1], au[1]) && stageConds(ap[0].Block()) == "" && stageConds(ap[1].Block()) == ""
+		stop := func(f *ssa.Function) bool {
+			n := fw.FuncName(f)
+			return stopExported(f) || n == apply || n == rto || n == auth
 		}
-		c.Check(okPos, rule, "ResolveStateConflictsV2 applies the unconflicted state first and last, unconditionally", c.P.Pos(fn.Pos()), "", fmt.Sprintf("%d applyEvents sites or wrong positions", n))
+		ap := fw.DeepCalls(fn, fw.NameIs(apply), stop)
+		r := fw.DeepCalls(fn, fw.NameIs(rto), stop)
+		au := fw.DeepCalls(fn, fw.NameIs(auth), stop)
+		construct := "ResolveStateConflictsV2 applies the unconflicted state first and last, unconditionally"
+		if len(ap) != 2 || len(r) != 1 || len(au) != 2 {
+			c.Undecided(rule, construct, fmt.Sprintf("%d applyEvents, %d ordering and %d auth sites found (expected 2, 1, 2)", len(ap), len(r), len(au)))
+		} else {
+			okPos := !canRunBefore(r[0], ap[0]) && !canRunBefore(ap[1], au[1]) && stageCondsDeep(ap[0]) == "" && stageCondsDeep(ap[1]) == ""
+			c.Check(okPos, rule, construct, c.P.Pos(fn.Pos()), "", "the unconflicted state is not applied before the power ordering and after the last auth pass, unconditionally")
+		}
 	}
 }
 
@@ -225,6 +317,16 @@ func checkComparators(c *fw.Ctx) {
 	check := func(fnSpec string, keys []key, last string) {
 		fn := mustFunc(c, rule, fnSpec)
 		if fn == nil {
+			return
+		}
+		// second idiom: return cmp.Or(cmp.Compare(a.k1, b.k1), ..., strings.Compare(a.id, b.id))
+		if seq, ok := cmpOrChain(fn); ok {
+			var want []string
+			for _, k := range keys {
+				want = append(want, k.field+":"+k.dir)
+			}
+			want = append(want, last+":asc")
+			c.Check(strings.Join(seq, ",") == strings.Join(want, ","), rule, strings.TrimPrefix(fnSpec, "sort")+": lexicographic chain", c.P.Pos(fn.Pos()), strings.Join(seq, ","), "the comparator orders by ["+strings.Join(seq, ", ")+"], the algorithm by ["+strings.Join(want, ", ")+"]")
 			return
 		}
 		var vars []tvar
@@ -276,7 +378,7 @@ func checkComparators(c *fw.Ctx) {
 					}
 				}
 			}
-			c.Check(ok, rule, spec+": "+f+" comes from "+strings.Trim(want[f], ".("), c.P.Pos(fn.Pos()), "", "sort key "+f+" is not filled from "+want[f])
+			c.Expect(ok, rule, spec+": "+f+" comes from "+strings.Trim(want[f], ".("), c.P.Pos(fn.Pos()), "", "no store of "+want[f]+"...) into sort key "+f+" was recognised")
 		}
 	}
 	// the power sort key ranks every room creator (create sender and additional_creators) as
@@ -285,6 +387,9 @@ func checkComparators(c *fw.Ctx) {
 		if tbl, err := fw.ExtractTable(fn, 0); err != nil {
 			c.Undecided(rule, "getPowerLevelFromAuthEvents", err.Error())
 		} else {
+			tbl.ExpandUnknown(func(atom string) bool {
+				return !fw.AtomCallsUnexportedHelper(atom) || strings.Contains(atom, "gmsl.CreatorsFromCreateEvent(")
+			})
 			n := 0
 			for _, r := range tbl.Rows {
 				if r.Outcome != "value:*global:gmsl.CreatorPowerLevel" {
@@ -337,6 +442,46 @@ func checkComparators(c *fw.Ctx) {
 	}
 }
 
+// cmpOrChain recognises `return cmp.Or(cmp.Compare(a.f, b.f), ..., strings.Compare(a.g, b.g))`
+// and returns the keys in order with their direction ("f:asc" when a's field is the first
+// operand, "f:desc" when b's is).
+func cmpOrChain(fn *ssa.Function) ([]string, bool) {
+	rets := fw.Returns(fn)
+	if len(rets) != 1 || len(fn.Params) != 2 {
+		return nil, false
+	}
+	call, _ := fw.CallOf(rets[0].Results[0])
+	if call == nil || !strings.HasPrefix(fw.CalleeName(call), "cmp.Or") {
+		return nil, false
+	}
+	elems, ok := fw.VariadicElems(call.Common().Args[0])
+	if !ok {
+		return nil, false
+	}
+	pa, pb := "*param:"+fn.Params[0].Name()+".", "*param:"+fn.Params[1].Name()+"."
+	var out []string
+	for _, e := range elems {
+		cc, _ := fw.CallOf(e)
+		if cc == nil || len(cc.Common().Args) != 2 {
+			return nil, false
+		}
+		n := fw.CalleeName(cc)
+		if !strings.HasPrefix(n, "cmp.Compare") && n != "strings.Compare" {
+			return nil, false
+		}
+		x, y := fw.Sig(cc.Common().Args[0]), fw.Sig(cc.Common().Args[1])
+		switch {
+		case strings.HasPrefix(x, pa) && strings.HasPrefix(y, pb) && strings.TrimPrefix(x, pa) == strings.TrimPrefix(y, pb):
+			out = append(out, strings.TrimPrefix(x, pa)+":asc")
+		case strings.HasPrefix(x, pb) && strings.HasPrefix(y, pa) && strings.TrimPrefix(x, pb) == strings.TrimPrefix(y, pa):
+			out = append(out, strings.TrimPrefix(x, pb)+":desc")
+		default:
+			return nil, false
+		}
+	}
+	return out, len(out) > 0
+}
+
 func checkControlEvent(c *fw.Ctx) {
 	rule := "4 power-events"
 	fn := mustFunc(c, rule, "isControlEvent")
@@ -383,35 +528,28 @@ func checkFallback(c *fw.Ctx) {
 		return
 	}
 	n := 0
-	for _, f := range fw.FamilyOf(fn) {
-		for _, call := range fw.CallsTo(f, false, fw.NameIs("(*gmsl.AuthEvents).AddEvent")) {
-			n++
-			s := fw.Sig(call.Common().Args[1])
-			// allowed sources: the resolved state, or an auth event looked up in the auth event map
-			ok := strings.Contains(s, "recv.resolved") || strings.Contains(s, "authEventMap[") || strings.HasPrefix(s, "phi(") && !strings.Contains(s, "param:event")
-			if strings.Contains(s, "param:event") && !strings.Contains(s, "authEventMap[") {
-				ok = false
-			}
-			c.Check(ok, rule, "the auth provider is filled from resolved state or the event's auth events, never the event itself", c.P.Pos(call.Pos()), s, "AddEvent receives "+s+": the event under check is inserted into its own auth provider and authorises itself")
-		}
+	addEvent := fw.NameIs("(*gmsl.AuthEvents).AddEvent")
+	for _, dc := range deepCallsTo(fn, addEvent) {
+		n++
+		s := fw.SigIn(dc.Fr, dc.Call.Common().Args[1])
+		// positive evidence only: what is inserted is the event that is being checked
+		self := s == "param:event" || strings.HasPrefix(s, "*param:events[") && !strings.Contains(s, "AuthEventIDs(") || s == "next(range(param:events))#2"
+		c.Check(!self, rule, "the auth provider is filled from resolved state or the event's auth events, never the event itself", c.P.Pos(dc.Call.Pos()), s, "AddEvent receives "+s+": the event under check is inserted into its own auth provider and authorises itself")
 	}
 	c.Min(rule+" AddEvent sites", n, 3)
 	// the fallback respects rejection and the (type, state_key) it is looking for
-	var clo *ssa.Function
-	for _, a := range fn.AnonFuncs {
-		if len(fw.CallsTo(a, false, fw.NameIs("(*gmsl.AuthEvents).AddEvent"))) > 0 {
-			clo = a
+	nfb := 0
+	for _, dc := range deepCallsTo(fn, addEvent) {
+		s := fw.SigIn(dc.Fr, dc.Call.Common().Args[1])
+		if !strings.Contains(s, "authEventMap[") {
+			continue
 		}
+		nfb++
+		conds := strings.Join(fw.DeepFacts(dc.Fr, dc.Call.Block()), " && ")
+		c.Expect(strings.Contains(conds, "!phi(") || strings.Contains(conds, "ejected"), rule, "rejected auth events are skipped", c.P.Pos(dc.Call.Pos()), "", "no rejection test was recognised before the fallback insertion: "+conds)
+		c.Expect(strings.Contains(conds, ".Type(") && strings.Contains(conds, "StateKeyEquals("), rule, "the fallback inserts only the auth event of the needed (type, state_key)", c.P.Pos(dc.Call.Pos()), "", "conditions: "+conds)
 	}
-	if clo == nil {
-		c.Undecided(rule, "auth-event fallback closure", "not found")
-		return
-	}
-	for _, call := range fw.CallsTo(clo, false, fw.NameIs("(*gmsl.AuthEvents).AddEvent")) {
-		conds := condsOf(call.Block())
-		c.Check(strings.Contains(conds, "!phi(") || strings.Contains(conds, "rejected") || strings.Contains(conds, "isRejected"), rule, "rejected auth events are skipped", c.P.Pos(call.Pos()), "", "no rejection test dominates the fallback insertion: "+conds)
-		c.Check(strings.Contains(conds, ".Type(") && strings.Contains(conds, "StateKeyEquals("), rule, "the fallback inserts only the auth event of the needed (type, state_key)", c.P.Pos(call.Pos()), "", "conditions: "+conds)
-	}
+	c.Expect(nfb > 0, rule, "auth-event fallback insertion", c.P.Pos(fn.Pos()), "", "no insertion of an event taken from the auth event map was recognised")
 }
 
 func checkAuthDifference(c *fw.Ctx) {
